@@ -49,7 +49,7 @@ REQUIRED = ('log_replays', 'double_runs', 'copies_taken',
             'copies_in_phase:showdown', 'copies_in_phase:pull',
             'copies_in_phase:bet', 'copies_in_phase:deal',
             'records_compared_with_state_delta', 'odd_chip_push_records',
-            'cross_process_reruns',
+            'cross_process_reruns', 'cross_process_resplit_reruns',
             'observer_query_points',
             'interleave_points')
 
@@ -486,14 +486,96 @@ def cross_process(res, cases, shard):
         res.counters['cross_process_reruns'] += 1
         if c.get('replenished'):
             res.counters['cross_process_reruns_with_replenishment'] += 1
+        if c.get('resplit'):
+            res.counters['cross_process_resplit_reruns'] += 1
         if g != c['digest']:
             res.violation(
+                (f'[played after a hand with the same cards split '
+                 f'differently between hole and board] '
+                 if c.get('resplit') else '') +
                 f'the same configuration, deck key and script give a '
                 f'different final state in another interpreter process '
                 f'(PYTHONHASHSEED {env["PYTHONHASHSEED"]} vs 0): {g} vs '
                 f'{c["digest"]} || {gen.describe(hist.dec_cfg(c["cfg"]))}',
                 {'cfg': c['cfg'], 'script': c['script'], 'pol': None,
                  'cross_process': True})
+
+
+def resplit_pairs(res, rng, count):
+    """Pairs of Omaha hands in ONE process whose cards are the same but
+    split differently between a player's hole cards and the board (one hole
+    card changes places with one board card).  The second hand, played
+    after the first, goes to the cross-process re-execution, where it is
+    played alone: what was evaluated earlier in a process must not matter."""
+    from vflib import load
+    from pokerkit import Deck
+    out = []
+    for _ in range(count):
+        game = rng.choice(['PotLimitOmahaHoldem',
+                           'FixedLimitOmahaHoldemHighLowSplitEightOrBetter'])
+        n = rng.choice([2, 2, 3])
+        autos = [a for a in gen.ALL_AUTOS
+                 if a not in ('HOLE_DEALING', 'BOARD_DEALING',
+                              'CARD_BURNING')]
+        gargs = [True, 0, [1, 2], 2] if game.startswith('Pot') else \
+            [True, 0, [1, 2], 2, 4]
+        cfg = {'kind': 'game', 'game': game, 'gargs': gargs,
+               'chip_type': 'int', 'autos': autos, 'mode': 'TOURNAMENT',
+               'boards': 1, 'stacks': [200] * n, 'n': n, 'rake': None,
+               'divmod': None, 'seed': rng.getrandbits(48), 'strict': False,
+               'unit': 1, 'bb': 2}
+        cards = [repr(c) for c in rng.sample(list(Deck.STANDARD), 4 * n + 9)]
+        holes = [cards[4 * i:4 * i + 4] for i in range(n)]
+        board = cards[4 * n:4 * n + 5]
+        burns = cards[4 * n + 5:]
+
+        def play(holes, board):
+            load.set_shuffle_key(cfg['seed'])
+            st = gen.build_state(cfg)
+            b = list(board)
+            spare = list(burns)
+            script = []
+            for _step in range(200):
+                if not st.status:
+                    break
+                if st.can_burn_card():
+                    name, args = 'burn_card', [spare.pop()]
+                elif st.can_deal_hole():
+                    i = st.hole_dealee_index
+                    name, args = 'deal_hole', [''.join(holes[i]), i]
+                elif st.can_deal_board():
+                    k = st.board_dealing_count
+                    name, args = 'deal_board', [''.join(b[:k])]
+                    del b[:k]
+                elif st.can_check_or_call():
+                    name, args = 'check_or_call', []
+                else:
+                    break
+                getattr(st, name)(*args)
+                script.append([name, driver.encode_args(args)])
+            return st, script
+        import warnings
+        try:
+            with warnings.catch_warnings():
+                warnings.simplefilter('ignore')
+                play(holes, board)
+                i, j, k = (rng.randrange(n), rng.randrange(4),
+                           rng.randrange(5))
+                holes2 = [list(h) for h in holes]
+                board2 = list(board)
+                holes2[i][j], board2[k] = board2[k], holes2[i][j]
+                st2, script2 = play(holes2, board2)
+        except Exception as exc:   # noqa: BLE001
+            res.counters['resplit_pairs_failed'] += 1
+            continue
+        if st2.status:
+            res.counters['resplit_pairs_failed'] += 1
+            continue
+        res.counters['resplit_pairs_played'] += 1
+        out.append({'cfg': hist.enc_cfg(cfg), 'script': script2,
+                    'digest': digest_of(st2), 'replenished': False,
+                    'resplit': True})
+    return out
 
 
 def run_shard(seed, shard, of, tier, deadline):
@@ -514,6 +596,10 @@ def run_shard(seed, shard, of, tier, deadline):
         PROP, seed, shard, of, tier, deadline - 12, cases=CASES,
         gen_kwargs=gen_kwargs, make_monitors=make_monitors,
         nontrivial=nontrivial, pol_tweak=pol_tweak, after_hand=after_hand)
+    from vflib.run import shard_seed
+    cases.extend(resplit_pairs(
+        res, random.Random(shard_seed(seed, PROP, shard) ^ 0x5151),
+        8 if tier == 'quick' else 60))
     cross_process(res, cases, shard)
     return res
 
